@@ -156,6 +156,7 @@ func (r *idleRun) settle(expect map[int]idleExpect, newCleaning bool) string {
 	}
 	useCount, cleaning, lockFree := r.inv.VerifState()
 	if !lockFree {
+		lockLeaked(r.script)
 		return "IdleInvoker lock is held at quiescence"
 	}
 	if int(useCount) != r.users || cleaning != r.cleanOn {
